@@ -36,9 +36,13 @@ def check(rep, tier, seed):
         sh = [rng.randrange(2, 6) for _ in range(d)]
         pz = rng.choice([0.0, 0.0, 0.4])
         # counts, and fractional spectra with totals below / around one (frequency-scale input, already normalised input)
-        kind = rng.choice(["counts", "counts", "small", "unit"])
+        kind = rng.choice(["counts", "counts", "small", "unit", "signed"])
         if kind == "counts":
             data = ["0" if rng.random() < pz else str(rng.randrange(1, 300)) for _ in range(elements(sh))]
+        elif kind == "signed":
+            # differences of spectra: negative entries, a positive total
+            data = [str(rng.randrange(-40, 60)) for _ in range(elements(sh))]
+            data[0] = str(50 * elements(sh))
         elif kind == "small":
             data = ["0" if rng.random() < pz else "0.%04d" % rng.randrange(1, 400) for _ in range(elements(sh))]
         else:
